@@ -2,6 +2,7 @@
 violation replays, known findings, instance floors."""
 import json
 import os
+import sys
 import time
 
 VERIF = os.path.dirname(os.path.dirname(os.path.abspath(__file__)))
@@ -163,7 +164,16 @@ class Check:
         for r in sorted(self.rule_counts):
             lines.append('  %-8s %4d  %s' % (r, self.rule_counts[r],
                                              self.rule_texts.get(r, '')))
-        print('\n'.join(lines))
+        try:
+            print('\n'.join(lines))
+            sys.stdout.flush()
+        except BrokenPipeError:
+            # the reader went away (e.g. `| head`): the verdict is the exit
+            # code and the evidence file, both unaffected
+            try:
+                sys.stdout = open(os.devnull, 'w')
+            except OSError:
+                pass
         return code
 
     def write_evidence(self, nviol, listed):
